@@ -44,7 +44,10 @@ func NewArray(
 			TypePanic(NewScope(), 0, "dimension", Fixnum(dimensions[i]),
 				fmt.Sprintf("positive fixnum less than %d", ArrayMaxDimension))
 		}
-		size *= dimensions[i]
+		if size *= dimensions[i]; ArrayMaxDimension < size {
+			TypePanic(NewScope(), 0, "dimensions", Fixnum(size),
+				fmt.Sprintf("dimensions with a product of at most %d", ArrayMaxDimension))
+		}
 	}
 	a.elements = make([]Object, size)
 	if initContent != nil {
@@ -304,7 +307,14 @@ func (obj *Array) Adjust(dimensions []int, elementType Symbol, initElement Objec
 		size := 1
 		for i := len(dimensions) - 1; 0 <= i; i-- {
 			obj.sizes[i] = size
-			size *= dimensions[i]
+			if dimensions[i] < 0 || ArrayMaxDimension < dimensions[i] {
+				TypePanic(NewScope(), 0, "dimension", Fixnum(dimensions[i]),
+					fmt.Sprintf("positive fixnum less than %d", ArrayMaxDimension))
+			}
+			if size *= dimensions[i]; ArrayMaxDimension < size {
+				TypePanic(NewScope(), 0, "dimensions", Fixnum(size),
+					fmt.Sprintf("dimensions with a product of at most %d", ArrayMaxDimension))
+			}
 		}
 		obj.elements = make([]Object, size)
 		obj.SetAll(initContent)
